@@ -376,9 +376,17 @@ def _judge_history(case, ctx, spec):
                         ctx.seen('history:cache-on-replayed-after-edit')
                         ctx.mark_nontrivial()
                 else:
-                    if not any(is_prefix(p) for p in possible) and not any(is_prefix(p) for p in mixed_results()):
-                        out.append({'kind': 'cache-on-pass-matches-no-version-of-the-source', 'step': st, 'observed': got})
-                        break
+                    if not any(is_prefix(p) for p in possible):
+                        # the views of a multi-view result (diff, recorddiff, unjoin) own separate sorts and caches, and a failed
+                        # pass stops at the first view that hits the fault: until a pass has completed, each view on its own may
+                        # show any combination of per-input versions
+                        cands = mixed_results()
+
+                        def view_ok(j):
+                            return any((cg[j] == c_[j]) if k == 'all' else (cg[j] == c_[j][:len(cg[j])]) for c_ in cands if j < len(c_))
+                        if not all(view_ok(j) for j in range(len(cg))):
+                            out.append({'kind': 'cache-on-pass-matches-no-version-of-the-source', 'step': st, 'observed': got})
+                            break
                     if k == 'all':
                         completed = cg
                         budget_at_completion = [(s.iter_calls - b[0], s.exhausted - b[1]) for s, b in zip(srcs, before)]
